@@ -17,7 +17,9 @@ Oracle (independent of the model) = the property itself, metamorphically on the 
   entity renamed consistently; every resolved path of the renamed build must equal the original path with
   exactly the segments that spell the old name replaced (literal path segments never use entity names),
   and must be identical when the reference is absolute; distinct actor names (differing by a digit or an
-  underscore part) must resolve to distinct paths wherever the path goes through the actor's name.
+  underscore part) must resolve to distinct paths wherever the path goes through the actor's name; the
+  set of ALL shares in the store of the renamed build must be exactly the renamed image of the original
+  store (nothing else appears), and building the original again afterwards must reproduce its store.
 """
 import json, re
 import core, flob
@@ -271,7 +273,17 @@ def gen_skeleton(rng, with_acts):
                         pers = []
                         for k in range(rng.choice([0, 1, 2])):
                             pers.append(["k%d" % (k + 1), rng.choice(["", gen_ipath(rng, None, quoted=True, safe=True)])])
-                        f["acts"].append({"verb": "do", "via": gen_ref(rng, True, names, safe=True, main_ok=mok, unique=True) if rng.random() < 0.6 else None,
+                        src = {}
+                        for cl in ("from", "for", "qua"):
+                            if rng.random() < (0.3 if cl != "qua" else 0.15):
+                                # `qua` sources are resolved before the actor exists: no actor-relative form there
+                                r = gen_ref(rng, False, names, safe=True, main_ok=mok, unique=True)
+                                if cl == "qua":
+                                    while (r["rel"] and r["rel"][0] == "actor") or r["path"].startswith("actor."):
+                                        r = gen_ref(rng, False, names, safe=True, main_ok=mok, unique=True)
+                                src[cl] = {"ref": r, "fields": rng.choice([[], [], ["a"]])}
+                        f["acts"].append({"verb": "do", "src": src,
+                                          "via": gen_ref(rng, True, names, safe=True, main_ok=mok, unique=True) if rng.random() < 0.6 else None,
                                           "per": pers, "as": acts[ai % len(acts)] if rng.random() < 0.7 else None})
                         ai += 1
     return prog, names
@@ -333,6 +345,11 @@ def script(prog):
                     line = "      do fb ref"
                     if a["via"]:
                         line += " via " + " ".join(ref_tokens(a["via"]))
+                    for cl in ("from", "for", "qua"):
+                        if cl in a.get("src", {}):
+                            sc = a["src"][cl]
+                            line += " %s %s%s" % (cl, (" ".join(sc["fields"]) + " in ") if sc["fields"] else "",
+                                                   " ".join(ref_tokens(sc["ref"])))
                     if a["per"]:
                         line += " per " + " ".join('%s "%s"' % (k, v) for k, v in a["per"])
                     if a["as"]:
@@ -364,6 +381,8 @@ def rename_prog(prog, kind, old, new):
                     a["ref"] = rename_ref(a["ref"], kind, old, new)
                 else:
                     a["via"] = rename_ref(a["via"], kind, old, new)
+                    for sc in a.get("src", {}).values():
+                        sc["ref"] = rename_ref(sc["ref"], kind, old, new)
                     if kind == "actor" and a["as"] is not None and actor_name(a["as"]) == old:
                         a["as"] = name_parts(new)
     if kind == "actor":
@@ -496,10 +515,10 @@ def call_resolve(frame, actor, inode, ipath):
 _cache = {}
 
 
-def built(prog):
+def built(prog, fresh=False):
     """real build of the skeleton / program; None if it does not build"""
     text = script(prog)
-    if text in _cache:
+    if text in _cache and not fresh:
         return _cache[text]
     sk = flob.build(text, 0.125)
     if len(_cache) > 64:
@@ -564,7 +583,38 @@ def framer_rows(prog, sk, fr, realname):
                     rows.append(("do.inode", fobj, act.actor.name, act.inode, "", None, act.actor.inode.name))
                 for k, v in a["per"]:
                     rows.append(("do." + k, fobj, act.actor.name, act.inode, v or k, None, getattr(act.actor, k).name))
+                # source references: `from` (parm sources) and `qua` (init sources, looked up before the actor
+                # exists) are resolved while Act.inode is still None, `for` (ioinit sources) with the act inode.
+                # Their shares are not kept on the act; they show in the store (name None = only there).
+                for cl, actor, inode in (("qua", None, None), ("from", act.actor.name, None), ("for", act.actor.name, act.inode)):
+                    if cl in a.get("src", {}):
+                        rows.append(("do." + cl, fobj, actor, inode, ref_tokens(a["src"][cl]["ref"]), False, None))
     return rows
+
+
+def store_shares(sk):
+    """every share of the built store (normalised path), without what every house has anyway"""
+    from ioflo.base import storing
+    out = []
+
+    def walk(node, prefix):
+        for key, val in node.items():
+            path = prefix + [key]
+            if isinstance(val, storing.Share):
+                out.append(".".join(path))
+            else:
+                walk(val, path)
+    for house in sk.houses:
+        walk(house.store.shares, [])
+    keep = []
+    for p in out:
+        seg = p.split(".")
+        if seg[0] in ("meta", "time", "realtime", "datetime", "ioflo"):
+            continue
+        if len(seg) == 4 and seg[0] == "framer" and seg[2] == "state" and seg[3] in ("elapsed", "recurred", "active", "human"):
+            continue
+        keep.append(p)
+    return sorted(keep)
 
 
 def no_inode_context(frame):
@@ -720,7 +770,8 @@ class CHECK(core.Check):
         sk = built(case["prog"])
         if sk is None:
             return ["ERR build " + str(flob.HOOKS.get("build_error"))]
-        return ["%s %s" % (d, norm(name)) for d, _, _, _, _, _, name in prog_refs(case["prog"], sk)]
+        return ["%s %s" % (d, norm(name)) for d, _, _, _, _, _, name in prog_refs(case["prog"], sk) if name is not None] + \
+            ["store " + " ".join(store_shares(sk))]
 
     def impl_parse(self, tokens, node):
         from ioflo.base import building, excepting
@@ -756,19 +807,20 @@ class CHECK(core.Check):
                     continue
                 rows = prog_refs(c["prog"], sk)
                 items = []
-                for d, fobj, actor, inode, ref, node, _ in rows:
+                for d, fobj, actor, inode, ref, node, name in rows:
                     ctx = raw_ctx(fobj)
+                    show = name is not None
                     if node is None:                      # ipath text goes to resolvePath as it is
-                        items.append((d, ctx, actor, inode, None, ref))
+                        items.append((d, ctx, actor, inode, None, ref, show))
                     else:
-                        items.append((d, ctx, actor, inode, len(first), None))
+                        items.append((d, ctx, actor, inode, len(first), None, show))
                         first.append("parse %d %s" % (1 if node else 0, " ".join(ref)))
                 plan.append(("prog", items))
         r1 = drv.run(first)
         second, outs = [], []
         for p in plan:
             if p[0] == "prog":
-                for d, ctx, actor, inode, pi, ipath in p[1]:
+                for d, ctx, actor, inode, pi, ipath, show in p[1]:
                     if pi is not None:
                         rep = r1[pi]
                         ipath = None if rep.startswith("ERR") else rep.rsplit(" ", 1)[0]
@@ -782,13 +834,22 @@ class CHECK(core.Check):
             elif p[0] in ("parse", "res"):
                 outs.append([r1[p[1]]])
             else:
-                lines = []
-                for d, ctx, actor, inode, pi, ipath in p[1]:
+                lines, shares = [], set()
+                for d, ctx, actor, inode, pi, ipath, show in p[1]:
                     if pi is not None and r1[pi].startswith("ERR"):
                         lines.append("%s %s" % (d, r1[pi]))
                     else:
                         rep = r2[k]; k += 1
-                        lines.append("%s %s" % (d, norm(rep.rsplit(" ", 1)[0]) if not rep.startswith("ERR") else rep))
+                        if rep.startswith("ERR"):
+                            lines.append("%s %s" % (d, rep))
+                            continue
+                        path, kind = rep.rsplit(" ", 1)
+                        if kind == "S":
+                            shares.add(norm(path))
+                        if show:
+                            lines.append("%s %s" % (d, norm(path)))
+                # the store holds exactly the shares the program's references resolve to
+                lines.append("store " + " ".join(sorted(shares)))
                 outs.append(lines)
         return outs
 
@@ -835,13 +896,20 @@ class CHECK(core.Check):
             return None
         if out and out[0].startswith("ERR build"):
             return None
-        sk2 = built(prog2)
+        sk2 = built(prog2, fresh=True)
         if sk2 is None:
             return "program no longer builds after renaming %s %s -> %s" % (kind, old, new)
-        rows2 = prog_refs(prog2, sk2)
-        rows1 = prog_refs(case["prog"], built(case["prog"]))
-        if len(rows2) != len(out):
-            return "renamed build has %d references, original %d" % (len(rows2), len(out))
+        rows2 = [r for r in prog_refs(prog2, sk2) if r[6] is not None]
+        store2 = store_shares(sk2)
+        sk1 = built(case["prog"], fresh=True)           # and the original once more, after the renamed variant
+        if sk1 is None:
+            return "original program no longer builds after its renamed variant was built"
+        rows1 = [r for r in prog_refs(case["prog"], sk1) if r[6] is not None]
+        store1b = store_shares(sk1)
+        refs = [l for l in out if not l.startswith("store ")]
+        store1 = [l for l in out if l.startswith("store")][0].split()[1:]
+        if len(rows2) != len(refs):
+            return "renamed build has %d references, original %d" % (len(rows2), len(refs))
         seen = {}
         for r in rows1:                                  # two actors of one frame must never collapse
             # (acts without any inode context: no `via` on the act, its frames, its framer or its main chain,
@@ -851,15 +919,28 @@ class CHECK(core.Check):
                 other = seen.setdefault(key, {}).setdefault(norm(r[6]), r[2])
                 if other != r[2]:
                     return "actors %r and %r of frame %s share the inode %r" % (other, r[2], r[1].name, norm(r[6]))
-        for line, r1, r2 in zip(out, rows1, rows2):
+        absolutes = set()
+        for line, r1, r2 in zip(refs, rows1, rows2):
             d, name = line.split(" ", 1) if " " in line else (line, "")
             if isinstance(r1[4], str):
                 absolute = r1[4].startswith(".")
             else:                                        # clause tokens: a dot path without relation (or `of root`)
                 absolute = r1[4][0].startswith(".") and r1[4][1:] in ([], ["of", "root"])
+            if absolute:
+                absolutes.add(name)
             why = self.compare(absolute, name + " X", norm(r2[6]) + " X", kind, old, new, "%s %r" % (d, r1[4]))
             if why:
                 return why
+        # nothing else appears in the store: the shares of the renamed build are exactly the renamed shares of
+        # the original build (absolute references stay as they are), and building the original
+        # again afterwards gives the original store again
+        want2 = sorted(set(p if p in absolutes else replace_name(p, kind, old, new) for p in store1))
+        if store2 != want2:
+            return "renaming %s %s -> %s: store of the renamed build has %s unexpected and lacks %s" % (
+                kind, old, new, sorted(set(store2) - set(want2))[:4], sorted(set(want2) - set(store2))[:4])
+        if store1b != sorted(store1):
+            return "building the original again after the renamed variant changes its store: extra %s, missing %s" % (
+                sorted(set(store1b) - set(store1))[:4], sorted(set(store1) - set(store1b))[:4])
         return None
 
     def compare(self, absolute, out1, out2, kind, old, new, what):
@@ -907,6 +988,8 @@ class CHECK(core.Check):
                     c = clone(); c["prog"]["framers"][i]["frames"][j]["via"] = None; yield c
                 for a in range(len(f["acts"])):
                     c = clone(); del c["prog"]["framers"][i]["frames"][j]["acts"][a]; yield c
+                    for cl in list(f["acts"][a].get("src", {})):
+                        c = clone(); del c["prog"]["framers"][i]["frames"][j]["acts"][a]["src"][cl]; yield c
                 for a in range(len(f["clones"])):
                     c = clone(); del c["prog"]["framers"][i]["frames"][j]["clones"][a]; yield c
         if case["kind"] == "res":
